@@ -183,6 +183,9 @@ where
     let mut errhash: u64 = 0;
     let x = guard(|| {
         let mut probs: Vec<String> = vec![];
+        // where the Error handed to the user points (byte offset, (line, column))
+        let mut err_loc: Option<usize> = None;
+        let mut err_lc: Option<(usize, usize)> = None;
         let e_fp = match T::try_parse(a) {
             Ok(n) => {
                 if full_p_ok.as_deref() != Some(&format!("{:?}", n)) {
@@ -194,6 +197,14 @@ where
                 if full_p_ok.is_some() {
                     probs.push("try_parse err but try_parse_with ok".into());
                 }
+                err_loc = Some(match e.location {
+                    pest::error::InputLocation::Pos(p) => p,
+                    pest::error::InputLocation::Span((p, _)) => p,
+                });
+                err_lc = Some(match e.line_col {
+                    pest::error::LineColLocation::Pos(lc) => lc,
+                    pest::error::LineColLocation::Span(lc, _) => lc,
+                });
                 Some(e.to_string())
             }
         };
@@ -263,6 +274,24 @@ where
             let mut tr = Tracker::new(input);
             let _ = T::try_parse_with(input, &mut stack, &mut tr);
             let (pos, attempts) = tr.finish();
+            // the location of the Error is the furthest position the tracker holds, and its line / column are pest's for that offset
+            if let Some(l) = err_loc {
+                if l != pos.pos() {
+                    probs.push(format!("the error points at byte {} but the listed attempts were made at byte {} (furthest position)", l, pos.pos()));
+                }
+                if let Some((_, node_end)) = pres.as_ref().map(|(o, _)| ((), *o)) {
+                    if l < node_end {
+                        probs.push(format!("the error points at byte {}, before the end {} of the prefix the rule matched", l, node_end));
+                    }
+                }
+                if let Some(pp) = pest::Position::new(input.input(), l) {
+                    if err_lc != Some(pp.line_col()) {
+                        probs.push(format!("the error says line/column {:?} but byte {} is at {:?}", err_lc, l, pp.line_col()));
+                    }
+                } else {
+                    probs.push(format!("the error points at byte {} which is not a character boundary of the input", l));
+                }
+            }
             // the RENDERED report says what the tracker holds: per enclosing rule, the rules that failed under positive
             // polarity are the ones called "expected", those that matched under a negative predicate "unexpected"
             if let Some(msg) = &e_fp {
